@@ -5,7 +5,7 @@
    run) with the order in which prange iterations execute as a parameter; [is_sched s] says
    that s permutes the iteration list. *)
 From Coq Require Import List ZArith.
-From GS Require Import Num Loops Summator_gen Krigesum_gen C15_KernelSpec C15_SummatorProofs.
+From GS Require Import Num Loops Summator_gen Krigesum_gen Estimator_gen C15_KernelSpec C15_SummatorProofs C15_VarioSpec C15_VarioProofs.
 
 Theorem C15_summate_any_schedule :
   forall (T : Type) (O : NumOps T) sched ks z1 z2 pos, is_sched sched ->
@@ -31,6 +31,26 @@ Theorem C15_krige_var_any_schedule :
     = (krige_field_spec O mat vecs cond, krige_error_spec O mat vecs).
 Proof. exact @krige_var_any_schedule. Qed.
 Print Assumptions C15_krige_var_any_schedule.
+
+(* variogram estimators: every bin / lag is the fold over ALL pairs in lexicographic order, whatever the
+   order in which the parallel iterations ran (specs: c15/C15_VarioSpec.v) *)
+Theorem C15_unstructured_any_schedule :
+  forall (T : Type) (O : NumOps T) sched f edges pos et dt, is_sched sched ->
+    unstructured_sched O sched f edges pos et dt = unstructured_spec O f edges pos et dt.
+Proof. exact @unstructured_any_schedule. Qed.
+Print Assumptions C15_unstructured_any_schedule.
+
+Theorem C15_structured_any_schedule :
+  forall (T : Type) (O : NumOps T) sched f et, (forall i j, is_sched (sched i j)) ->
+    structured_sched O sched f et = structured_spec O f et.
+Proof. exact @structured_any_schedule. Qed.
+Print Assumptions C15_structured_any_schedule.
+
+Theorem C15_ma_structured_any_schedule :
+  forall (T : Type) (O : NumOps T) sched f mask et, (forall i j, is_sched (sched i j)) ->
+    ma_structured_sched O sched f mask et = ma_structured_spec O f mask et.
+Proof. exact @ma_structured_any_schedule. Qed.
+Print Assumptions C15_ma_structured_any_schedule.
 
 (* non-vacuity: reversing the iteration list is a schedule, and the spec is a plain value *)
 Theorem C15_schedules_exist : is_sched (fun l => l) /\ is_sched (@rev nat).
